@@ -305,9 +305,11 @@ func (v *vfE8Conn) set(shape [3]int64) {
 	vfE8Field(v.c, "closeFlag").SetInt(shape[2])
 }
 
-// vfE8BreakOut makes every later system call on the descriptor of f.out fail with EBADF (the number now refers
-// to an O_PATH descriptor); the returned function puts the real file back.
-func vfE8BreakOut(out *os.File) (restore func()) {
+// vfE8BreakOut makes later system calls on the descriptor of f.out fail; the returned function puts the real file
+// back. writesOnly = false: the number now refers to an O_PATH descriptor — write, fsync: EBADF. writesOnly = true:
+// it refers to a read-only descriptor of the SAME file — write(2) fails with EBADF, fsync and close succeed (the
+// "disk full, fsync fine" shape: a tool that drops the write error would sync, FIN and have lost the record).
+func vfE8BreakOut(out *os.File, writesOnly bool) (restore func()) {
 	fd := int(out.Fd())
 	if fd < 0 {
 		return func() {}
@@ -317,7 +319,12 @@ func vfE8BreakOut(out *os.File) (restore func()) {
 		return func() {}
 	}
 	const oPath = 0x200000
-	pfd, err := syscall.Open("/", oPath, 0)
+	var pfd int
+	if writesOnly {
+		pfd, err = syscall.Open(out.Name(), syscall.O_RDONLY, 0)
+	} else {
+		pfd, err = syscall.Open("/", oPath, 0)
+	}
 	if err != nil {
 		syscall.Close(saved)
 		return func() {}
@@ -582,7 +589,17 @@ func TestVerifToFileChild(t *testing.T) {
 	// arm injects the event's fault; it returns the function that disarms it if the process survived the event.
 	// The op `tf fault <kind> <where>` tells the model which primitive of the coming event gets which Fault; the
 	// model resolves "n-th Finish" / "first primitive after the FIN batch" to a primitive index by itself.
+	var arm0 func(ev vfE8Event, body []byte) func()
 	arm := func(ev vfE8Event, body []byte) func() {
+		undo := arm0(ev, body)
+		return func() { // the process survived the event: the fault (if it did not fire) is over
+			undo()
+			rec.mu.Lock()
+			rec.killAt, rec.swapAt, rec.swapFunc = 0, 0, nil
+			rec.mu.Unlock()
+		}
+	}
+	arm0 = func(ev vfE8Event, body []byte) func() {
 		rec.mu.Lock()
 		rec.evFins, rec.killAt, rec.swapAt, rec.swapFunc = 0, 0, 0, nil
 		pending := nmsg - rec.total
@@ -612,7 +629,11 @@ func TestVerifToFileChild(t *testing.T) {
 			}
 			say("tf fault err first")
 			ans("ok")
-			return vfE8BreakOut(f.out)
+			// the first primitive is a write (plain: the body; gzip: header / member close) → only writes fail;
+			// it is an fsync (plain, every other case) → everything fails
+			writesOnly := sc.GZIP || (ev.Kind == "msg" && !f.needsRotation())
+			fmt.Fprintf(res, "FAULTSHAPE errfirst writes-only=%v\n", writesOnly)
+			return vfE8BreakOut(f.out, writesOnly)
 		case ev.Fault == "errafterfins":
 			say("tf fault err afterfins")
 			ans("ok")
@@ -620,7 +641,7 @@ func TestVerifToFileChild(t *testing.T) {
 			rec.swapAt = 1
 			rec.swapFunc = func() {
 				if vfE8OutOpen(f) {
-					restore = vfE8BreakOut(f.out)
+					restore = vfE8BreakOut(f.out, sc.GZIP) // next on f.out: gzip → member close (a write); plain → fsync
 				}
 			}
 			return func() {
@@ -937,6 +958,8 @@ func vfE8RunCase(dir string, idx int, sc vfE8Script, strace bool) vfE8Result {
 			out.hist["starve:"+strings.Replace(l[7:], " ", ":", -1)]++
 		case strings.HasPrefix(l, "GZBAD "):
 			out.oracle = append(out.oracle, "gzip output file is not decompressible while the tool runs: "+l[6:])
+		case strings.HasPrefix(l, "FAULTSHAPE "):
+			out.hist["fault:shape:"+strings.Replace(l[11:], " ", ":", -1)]++
 		case strings.HasPrefix(l, "FAULTSKIP "):
 			out.hist["fault:skipped:"+l[10:]]++
 		case strings.HasPrefix(l, "OP "):
@@ -1242,6 +1265,89 @@ func TestVerifToFileGiveUp(t *testing.T) {
 		}
 		src.Down()
 	}
+}
+
+// TestVerifToFileStarved (parent binary, real clock; audit C30.2): the starvation input as a REAL go-nsq consumer
+// produces it — FileLogger connected to a stub nsqd, --sync-interval one hour, max-in-flight M: after k deliveries
+// with k = the smallest count for which go-nsq calls the connection starved (k >= int64(0.85*M), k < M) the router's
+// `sync || IsStarved()` must take the Sync + FIN path although neither the ticker nor `pos == cap(output)` asks
+// for it. Positive observations only (no "nothing happens for x ms" oracle): at least one FIN arrives (with a one-hour ticker and pos < cap only the starved path can send it), and there are at
+// least as many whole lines on disk as FINs.
+func TestVerifToFileStarved(t *testing.T) {
+	if os.Getenv("VF_E8_CASE") != "" {
+		t.Skip("parent only")
+	}
+	for _, c := range []struct{ mif, k int }{{2, 1}, {10, 8}, {3, 2}} {
+		root := t.TempDir()
+		src := vfNewStubNsqd()
+		opts := NewOptions()
+		opts.OutputDir, opts.WorkDir = root, root
+		opts.NSQDTCPAddrs = []string{src.addr}
+		opts.SyncInterval = time.Hour
+		opts.MaxInFlight = c.mif
+		opts.HostIdentifier = "h"
+		cfg := nsq.NewConfig()
+		cfg.MaxInFlight = opts.MaxInFlight
+		f, err := NewFileLogger(func(lvl lg.LogLevel, f string, args ...interface{}) {}, opts, "t", cfg)
+		if err != nil {
+			t.Fatal(err)
+		}
+		f.consumer.SetLoggerLevel(nsq.LogLevelMax)
+		done := make(chan struct{})
+		go func() {
+			f.router()
+			close(done)
+		}()
+		for i := 0; i < 2500 && !src.Subscribed(); i++ {
+			time.Sleep(2 * time.Millisecond)
+		}
+		var recs [][]byte
+		for i := 0; i < c.k; i++ {
+			body := []byte(fmt.Sprintf("starved-%d-%d", c.mif, i))
+			recs = append(recs, append(append([]byte{}, body...), '\n'))
+			src.Deliver(fmt.Sprintf("%016d", i), 1, body)
+		}
+		// wait for the first FIN (it can only come from the starved path); later ones are counted while they come
+		// (go-nsq's RDY of a fresh connection varies, so how many of the k are finished by the starved path is not fixed)
+		fins := 0
+		deadline := time.After(15 * time.Second)
+	wait:
+		for fins < c.k {
+			select {
+			case r := <-src.Resp:
+				if strings.HasPrefix(r, "FIN") {
+					fins++
+					if fins == 1 {
+						deadline = time.After(300 * time.Millisecond)
+					}
+				}
+			case <-deadline:
+				break wait
+			}
+		}
+		recs = nil // the finished ones are not identified by the stub's counter: check every delivered record that is on disk
+		tree2 := vfE8Tree2(root)
+		onDisk := 0
+		for _, c := range tree2 {
+			onDisk += bytes.Count(c, []byte("\n"))
+		}
+		missing := 0
+		if onDisk < fins { // every FIN is backed by a line of its own (bodies are distinct, one line each)
+			missing = fins - onDisk
+		}
+		_ = recs
+		fmt.Printf("STARVED max_in_flight=%d delivered=%d fins=%d records_without_line=%d\n", c.mif, c.k, fins, missing)
+		if fins > 0 && missing > 0 {
+			fmt.Printf("ORACLE-FAIL starved max_in_flight=%d: %d of %d finished records own no whole line of any file\n", c.mif, missing, c.k)
+		}
+		close(f.termChan)
+		select {
+		case <-done:
+		case <-time.After(5 * time.Second):
+		}
+		src.Down()
+	}
+	fmt.Printf("ORACLE-DONE starved\n")
 }
 
 func vfE8Tree2(root string) map[string][]byte {
